@@ -651,10 +651,25 @@ func (r *runner) exec(op string) string {
 	g := r.w.g
 	arg := op[1:]
 	switch op[0] {
-	case 'P':
-		k, _ := strconv.Atoi(arg)
+	case 'P', 'Q': // Q: the pushed descriptor carries annotations etc. (and maybe a ref name)
+		f := strings.Split(arg, ":")
+		k, _ := strconv.Atoi(f[0])
 		n := g.Nodes[k]
-		err := r.store.Push(ctx, n.Desc, bytes.NewReader(n.Bytes))
+		pd := n.Desc
+		if op[0] == 'Q' {
+			x, _ := strconv.Atoi(f[1])
+			pd = applyExtra(n.Desc, x)
+			if f[2] != "-" {
+				a, _ := strconv.Atoi(f[2])
+				ann := map[string]string{}
+				for kk, v := range pd.Annotations {
+					ann[kk] = v
+				}
+				ann[ocispec.AnnotationRefName] = tagPool[a]
+				pd.Annotations = ann
+			}
+		}
+		err := r.store.Push(ctx, pd, bytes.NewReader(n.Bytes))
 		res := errTok(err)
 		if err != nil && r.w.bad[k] && !errors.Is(err, errdef.ErrAlreadyExists) {
 			res = "badcontent" // content.Successors cannot decode the manifest
@@ -1066,6 +1081,12 @@ func (r *runner) generate(rnd *common.Rand, nops int) {
 						r.do(fmt.Sprintf("P%d", i))
 					}
 				}
+			} else if rnd.Chance(1, 6) {
+				a := "-"
+				if rnd.Chance(1, 4) {
+					a = strconv.Itoa(rnd.Intn(len(tagPool)))
+				}
+				r.do(fmt.Sprintf("Q%d:%d:%s", k, 1+rnd.Intn(nExtra-1), a))
 			} else {
 				r.do(fmt.Sprintf("P%d", k))
 			}
@@ -1404,7 +1425,7 @@ var coverageFloor = []string{
 	"reopen:oci.New", "reopen:NewFromFS(os.DirFS)", "reopen:NewFromFS(fstest.MapFS)", "reopen:NewFromTar",
 	"tar:style0", "tar:style1", "tar:style2", "tar:style3", "tar:style4", "tar:style5", "tar:style6(", "tar:style7(",
 	"tar:style8(", "tar:style9(", "tar:style10(", "tar:sparse-member-archived", "tar:blob-name-over-100-bytes",
-	"op:P:ok", "op:P:exists", "op:P:badcontent", "op:T:ok", "op:T:notfound", "op:T:invalidref", "op:U:ok", "op:U:notfound",
+	"op:P:ok", "op:Q:ok", "op:P:exists", "op:P:badcontent", "op:T:ok", "op:T:notfound", "op:T:invalidref", "op:U:ok", "op:U:notfound",
 	"op:V:invalidref", "op:A:ok", "op:D:ok", "op:D:notfound", "op:G:ok", "op:S:ok", "op:R:ok", "op:I:ok",
 	"op:Xv", "op:Xi", "op:Xa", "op:Xf", "tag:foreign-digest-reference", "tag:invalid-utf8-reference",
 	"gc:with-untagged-subject-chains", "delete:autogc-with-stored-referrer",
